@@ -374,6 +374,14 @@ def gen_case(rng, circuit_friendly=False):
             h["nosuch"] = 1
         for sv in ("auto", "dfs", "sat"):
             solves.append({"solver": sv, "limit": rng.choice([1, 3]), "hints": h})
+    if named and rng.random() < 0.5:
+        # complete hints: a value for every named variable, each in its domain, jointly consistent or not
+        h = {n: rng.randint(lb, ub) for n, lb, ub in named}
+        if rng.random() < 0.3:
+            v = rng.choice(list(h.values()))
+            h = {n: (v if lb <= v <= ub else h[n]) for n, lb, ub in named}       # all equal where possible
+        for sv in ("auto", "dfs", "sat"):
+            solves.append({"solver": sv, "limit": rng.choice([1, 3]), "hints": h})
     return {"vars": vars_, "cons": cons, "solves": solves}
 
 
